@@ -943,8 +943,91 @@ func freeNeverAllocated(r *ev.Run, id string) {
 	}
 }
 
+// freeThenHint: long histories. After n un-hinted allocations (n = 5000 on 8192-block pools;
+// thorough: 70 000 on 2^17 blocks) single blocks all over the allocated part are freed and
+// named by the next hint: each must be honoured exactly; an un-hinted allocation after a free
+// must return that (only) free block below the high-water mark.
+func freeThenHint(r *ev.Run, id string) {
+	type cfg struct {
+		p Pool
+		n int64
+	}
+	cfgs := []cfg{{Pool{CIDR: "2001:db8::/51", Page: 64}, 5000}, {Pool{V4: true, Start: "10.0.0.0", End: "10.0.31.255"}, 5000}}
+	if !r.Quick() {
+		cfgs = append(cfgs, cfg{Pool{CIDR: "2001:db8::/47", Page: 64}, 70000}, cfg{Pool{V4: true, Start: "10.0.0.0", End: "10.1.255.255"}, 70000})
+	}
+	for _, c := range cfgs {
+		p := c.p
+		g := newGeom(p)
+		fam := "ipv6"
+		if p.V4 {
+			fam = "ipv4"
+		}
+		blk := func(i int64) net.IPNet {
+			return net.IPNet{IP: g.ipBytes(g.blockBase(i)), Mask: net.CIDRMask(g.page, g.width)}
+		}
+		blockOfNet := func(n net.IPNet) int64 {
+			if p.V4 {
+				if v4 := n.IP.To4(); v4 != nil {
+					return g.blockOf(new(big.Int).SetBytes(v4))
+				}
+				return -1
+			}
+			return g.blockOf(new(big.Int).SetBytes(n.IP.To16()))
+		}
+		a := newAlloc(p)
+		end := reg.OpBegin(fmt.Sprintf("pool %v: %d allocations, then free+hint", p, c.n))
+		ok := true
+		for i := int64(0); i < c.n && ok; i++ {
+			if _, err := a.Allocate(net.IPNet{}); err != nil {
+				ok = false
+			}
+		}
+		ks := []int64{0, 1, 63, 64, 65, 100, 127, 128, 1000, 4032, 4095, 4096, 4097, c.n / 2, c.n - 65, c.n - 1}
+		for _, k := range ks {
+			if !ok || k < 0 || k >= c.n {
+				continue
+			}
+			sc := fmt.Sprintf("%d un-hinted allocations, Free(block %d), then", c.n, k)
+			if err := a.Free(blk(k)); err != nil {
+				if id == "C06" {
+					r.Violate("C06/"+fam+"/free-of-held-fails/long-history", fmt.Sprintf("pool %v: %s: Free failed: %v", p, sc, err), map[string]interface{}{"pool": p, "scenario": sc})
+				}
+				continue
+			}
+			n, err := a.Allocate(blk(k))
+			if got := blockOfNet(n); err != nil || got != k {
+				if id == "C07" {
+					r.Violate("C07/"+fam+"/hint-not-honoured/long-history", fmt.Sprintf("pool %v (%d blocks): %s a hint naming it returned %v (block %d), %v", p, g.n, sc, n, got, err), map[string]interface{}{"pool": p, "scenario": sc})
+				}
+				ok = false
+				continue
+			}
+			// and the same through the un-hinted path
+			a.Free(blk(k))
+			n2, err2 := a.Allocate(net.IPNet{})
+			if got := blockOfNet(n2); err2 != nil || got != k {
+				if id == "C05" && (err2 != nil || got < 0) {
+					r.Violate("C05/"+fam+"/alloc-fails-with-free-blocks/long-history", fmt.Sprintf("pool %v: %s an un-hinted allocation returned %v, %v", p, sc, n2, err2), map[string]interface{}{"pool": p, "scenario": sc})
+				}
+				if id == "C04" && err2 == nil && got >= 0 && got < c.n {
+					r.Violate("C04/"+fam+"/double-allocation/long-history", fmt.Sprintf("pool %v: %s an un-hinted allocation returned block %d, which is outstanding", p, sc, got), map[string]interface{}{"pool": p, "scenario": sc})
+				}
+				if err2 == nil && got >= c.n {
+					// took a block above the high-water mark although a lower one is free: allowed,
+					// but then block k is still free; take it so that the state stays as assumed
+					a.Allocate(blk(k))
+				}
+			}
+		}
+		end()
+		r.EvalN("free-then-hint/"+fam, c.n)
+	}
+}
+
 // sweeps: linear fills of many pool geometries (C05), hint family at word boundaries (C07).
 func sweeps(r *ev.Run, id string) {
+	freeThenHint(r, id)
 	freeNeverAllocated(r, id)
 	hugeHintedFill(r, id)
 	farHints(r, id)
